@@ -243,9 +243,11 @@ PROPERTIES["C08"] = {
                     bounds="Sha256Writer over a short-writing sink, data length and chunk size as in the name (l=length, k=chunk, 0=whole)")
                   for n, t in [("c08_writer_l1_k1", "thorough"), ("c08_writer_l2_k1", "quick"), ("c08_writer_l3_k1", "quick"), ("c08_writer_l3_k2", "quick"),
                                ("c08_writer_l4_k3", "thorough"), ("c08_writer_l4_k0", "quick")]]
+    + [MH("c08_clear_%d_%s" % (h, s), inputs="main header with %d symbolic store bytes; previous signature header %s" % (h, s), timeout=300,
+          bounds="Package::clear_signatures (MIR): the recorded SHA256 equals hex(SHA-256(serialised header)) with SHA-256 as an uninterpreted function; no signature survives") for h in (0, 3) for s in ("empty", "stale")]
     + [H("c08_twin", sub="digest", role="twin", timeout=900)],
     "bounds": "the hashing writer (Sha256Writer) with data of 1..4 symbolic bytes through inner sinks accepting 1, 2, 3 or all bytes per call",
-    "outside": "digests computed inside PackageBuilder::prepare_data (payload, per-file) and header digests on build/sign/clear: the builder and the signature-header builder are outside reach (DESIGN.md C08); longer data",
+    "outside": "digests computed inside PackageBuilder::prepare_data (payload, per-file, header digest on build) and on sign (needs real OpenPGP packets): outside reach (DESIGN.md C08); longer data",
     "assumptions": A_COMMON + [A_S4, A_S5, A_SHAPES, "inner sink: KSink short writes only (no failure/Interrupted); std's write_all drives Sha256Writer::write"],
 }
 
@@ -273,12 +275,16 @@ PROPERTIES["C05"] = {
     + [MH("c05_paths_%d_%d" % s, inputs="%d base names, %d directory indexes (any u32), %d directory names, all symbolic" % (s[0], s[0], s[1]),
           bounds="get_file_paths = directory[dirindex] + basename; out-of-range index -> InvalidTagIndex", timeout=600, covers_unsat_ok=["paths returned", "error returned"])
        for s in ((1, 1), (2, 1), (2, 2), (1, 0), (0, 0), (3, 2))]
+    + [MH("c05_deps_%s_2" % k, inputs="all eight dependency triples present, 2 items each, contents symbolic", bounds="get_%s returns its own triple zipped in order" % k, timeout=300)
+       for k in ("provides", "requires", "conflicts", "obsoletes", "recommends", "suggests", "enhances", "supplements")]
+    + [MH("c05_deps_requires_0", inputs="triples with zero items", bounds="empty lists", timeout=300, covers_unsat_ok=["list returned"])]
+    + [MH("c05_deps_provides_missing_" + d, inputs="the %s tag of the triple absent" % d, bounds="missing member -> error", timeout=300, covers_unsat_ok=["list returned"]) for d in ("NAME", "FLAGS", "VERSION")]
     + [MH("c05_paths_missing_" + m, inputs="one member of the BASENAMES/DIRINDEXES/DIRNAMES triple absent", bounds="missing member -> error", timeout=300,
           covers_unsat_ok=["paths returned", "error returned"]) for m in ("BASENAMES", "DIRINDEXES", "DIRNAMES")]
     + [MH("c05_hdr_bin_18_0", inputs="as c05_hdr_18_0, store bytes 0..255", bounds="non-UTF-8 data for the non-string types", timeout=900,
           covers_unsat_ok=["accepted with an entry", "header rejected"] + ["decoded a %s entry" % t for t in ("Null", "Char", "Int8", "Int16", "Int32", "Int64", "StringTag", "Bin", "StringArray", "I18NString")])],
     "bounds": "headers with one entry of any type, any offset/count, store up to 8 bytes: decoded data vs an independent decoder, every typed getter of Header (right type -> that value, wrong type -> error, absent tag -> TagNotFound)",
-    "outside": "zipped accessors other than get_file_paths (dependencies, changelog, the ten-way zip of get_file_entries); more than one entry per parsed header; multi-locale i18n selection",
+    "outside": "changelog and scriptlet accessors, the ten-way zip of get_file_entries; more than one entry per PARSED header (the zipped accessors run on headers built as values); multi-locale i18n selection",
     "assumptions": A_MIR + A_COMMON[:1] + ["string data ASCII (A2)"],
     "technique": None,
 }
@@ -309,10 +315,26 @@ PROPERTIES["C09"] = {
           inputs="two records of types %s and %s, tags symbolic (distinct), contents symbolic" % (a, b), bounds="Header::from_entries with two records") for a in _C09V for b in _C09V]
     + [MH(n, inputs="three records", bounds="Header::from_entries with three records", timeout=900) for n in ("c09_triple_str_i16_i64", "c09_triple_i8_i32_strs")]
     + [MH("c09_sig_pair", inputs="signature-header instance", bounds="Header::<IndexSignatureTag>::from_entries", timeout=900), MH("c09_empty", inputs="no records", bounds="empty header", timeout=300)]
-    + [MH("c09_lead_%d" % n, inputs="package name of %d symbolic bytes" % n, bounds="Lead::new + Lead::write", timeout=300) for n in (0, 1, 3, 65, 66, 70)],
+    + [MH("c09_lead_%d" % n, inputs="package name of %d symbolic bytes" % n, bounds="Lead::new + Lead::write", timeout=300) for n in (0, 1, 3, 65, 66, 70)]
+    + [MH("c09_clear_%d_%s" % (h, s), inputs="package with %d header store bytes, previous signature header %s" % (h, s), timeout=300,
+          bounds="signature header emitted by Package::clear_signatures vs the strict validator") for h in (0, 3) for s in ("empty", "stale")],
     "bounds": "Header::from_entries for every ordered pair of the nine data types (1-2 items each), two triples, both tag instantiations; Lead::new for names of 0..70 bytes; signature padding is decided under C01 (c01_sigpad_*)",
     "outside": "whole packages from the builder (record selection, rpmlib() requirements) and the cpio payload writer: PackageBuilder::prepare_data is outside reach (DESIGN.md C06/C07); records with zero items",
     "assumptions": A_MIR + ["oracle: strict validator after rpm's hdrblobVerifyInfo/hdrblobVerifyRegion (region tag first, BIN count 16, trailer at the end of the store pointing back over all entries, tags strictly ascending, type alignment, in-range non-overlapping data, count != 0, terminated strings) + parse-back of the written bytes"],
+    "technique": None,
+}
+
+# ------------------------------------------------------------------------------------------ C17 (MIR engine; partial)
+PROPERTIES["C17"] = {
+    "harnesses": [MH("c17_dest_%d" % n, inputs="destination of %d characters over {'/', '.', 'a'} (every string), 2 symbolic content bytes" % n,
+                     bounds="PackageBuilder::add_data (the part of with_file after reading the source)", timeout=900, tier=("quick" if n <= 5 else "thorough"),
+                     covers_unsat_ok=["destination accepted", "destination rejected"]) for n in range(0, 7)]
+    + [MH("c17_caps_" + n, inputs="capability text of shape " + n, bounds="FileOptionsBuilder::caps", timeout=600, covers_unsat_ok=["capabilities accepted", "capabilities rejected"])
+       for n in ("sym2", "sym3", "chown_sym2", "two")],
+    "bounds": "every destination string of up to 6 characters over {'/', '.', 'a'}; capability text shapes as in C19 (subset)",
+    "outside": "compression levels (consumed by zstd/xz/bzip2 C libraries behind FFI and flate2): not encodable; the metadata setters take any String and store it (no failure path); reading the source file (file system)",
+    "assumptions": A_MIR + ["std::path is modelled (Unix component rules: root, '.', '..', repeated separators); the model is validated on every run against the real builder on 78 concrete destinations",
+                            "BTreeMap/BTreeSet membership is modelled, ordering is not (irrelevant for panic-freedom)"],
     "technique": None,
 }
 
@@ -403,7 +425,6 @@ NOT_APPLICABLE = {
     "C10": "every step goes through real OpenPGP packet parsing and public-key cryptography (RSA/EdDSA/ECDSA big-number arithmetic), outside SAT reach; an abstract signer cannot produce packets the real parser accepts",
     "C11": "nondeterminism comes from RandomState (OS randomness behind FFI); SipHash+hashbrown with a symbolic seed did not finish for a 2-element set; the clamp logic lives inside the unreachable prepare_data; cross-process runs are not expressible",
     "C12": "effects are file-system system calls (no model; symlink resolution is kernel semantics) and Path::join/strip_prefix/components exhausted 20 GB at four symbolic characters",
-    "C17": "destination handling is PathBuf::parent/strip_prefix/file_name (same blow-up as C12); compression levels are consumed by C libraries behind FFI; capability text is C19",
 }
 
 PROPERTIES["C13"].update(claim="compare_version_string is symbolically executed from its MIR for every pair of ASCII strings up to the stated lengths (all 127 values per byte): "
@@ -438,3 +459,6 @@ PROPERTIES["C02"].update(claim="Package::verify_signature is symbolically execut
                          "conversely a well-typed, accepted signature verifies. The cryptographic corollary is outside reach.", note=_NOTE_MIR)
 PROPERTIES["C09"].update(claim="Header::from_entries (sorting, offset assignment, alignment, region tag and trailer) is symbolically executed from MIR for every ordered pair of data types and checked by a strict validator "
                          "modelled on rpm's own header verification, plus parse-back of the emitted bytes; Lead::new for names of 0..70 bytes. Whole builder output and the cpio writer are outside reach.", note=_NOTE_MIR)
+
+PROPERTIES["C17"].update(claim="Partial: the builder's destination handling (PackageBuilder::add_data) is symbolically executed from MIR for every destination string up to 6 characters over {'/', '.', 'a'}: "
+                         "it returns Ok or InvalidDestinationPath, never panics; FileOptionsBuilder::caps reports invalid capability text as InvalidCapabilities. Compression levels are outside reach (FFI).", note=_NOTE_MIR)
